@@ -394,7 +394,8 @@ def _extract_attributes(element):
         if ref is not None:
             _v = xml_qname_to_QualifiedName(subel, ref)
         elif datatype == XSD_QNAME:
-            _v = xml_qname_to_QualifiedName(subel, text)
+            # (white space around an xsd:QName is not part of the name)
+            _v = xml_qname_to_QualifiedName(subel, text.strip())
         elif langtag is not None:
             _v = prov.model.Literal(text, datatype, langtag)
         elif datatype is not None:
